@@ -1045,7 +1045,35 @@ func errHandled(fn *ssa.Function, e ssa.Value) (bool, string) {
 					return false, "the error is stored but never read"
 				}
 			}
-		case *ssa.Phi, *ssa.MakeInterface, *ssa.Call, *ssa.ChangeInterface:
+		case *ssa.Phi:
+			used = true
+			// produced in a loop iteration and carried round through the header's phi: unless the loop body examines
+			// that phi, the next iteration's result overwrites this one (`for … { n, err = …Save(ctx) }; if err != nil`)
+			if def, isI := e.(ssa.Instruction); isI {
+				for _, l := range loopsOf(fn) {
+					if x.Block() != l.Header || !l.Blocks[def.Block()] {
+						continue
+					}
+					examinedInside := false
+					if pr := x.Referrers(); pr != nil {
+						for _, u := range *pr {
+							if _, isPhi := u.(*ssa.Phi); isPhi {
+								continue
+							}
+							if _, isDbg := u.(*ssa.DebugRef); isDbg {
+								continue
+							}
+							if l.Blocks[u.Block()] {
+								examinedInside = true
+							}
+						}
+					}
+					if !examinedInside {
+						return false, "the error of one loop iteration is only looked at after the loop: a later iteration's result overwrites it"
+					}
+				}
+			}
+		case *ssa.MakeInterface, *ssa.Call, *ssa.ChangeInterface:
 			used = true
 		case *ssa.BinOp:
 			used = true
